@@ -75,7 +75,7 @@ PROPERTIES = {
         assumptions=[],
     ),
     'C11': dict(
-        units=['timeout', 'kani_timeout', 'kani_poll'],
+        units=['timeout', 'kani_timeout', 'kani_poll', 'active_peers'],
         canaries=['timeout', 'poll'],
         counterexample=cex.cex_c11,
         extra=[validate.default_timeouts_wiring],
@@ -153,8 +153,8 @@ PROPERTIES = {
         assumptions=[CONC],
     ),
     'C01': dict(
-        units=['crypto', 'tls_config', 'wire', 'enum_glue'],
-        canaries=['streams', 'crypto', 'tls_config'],
+        units=['crypto', 'tls_config', 'wire', 'enum_glue', 'enum_certs'],
+        canaries=['streams', 'crypto', 'tls_config', 'certs'],
         extra=[validate.cert_corpus],
         counterexample=cex.cex_cert,
         scope='GLUE ONLY (cryptography and the X.509 / pkcs8 parsers are uninterpreted): the identity of a certificate is the Ed25519 key decoded from ITS OWN SubjectPublicKeyInfo and every parser failure is an error; '
@@ -165,10 +165,27 @@ PROPERTIES = {
               'the PeerId a handler sees on a request and a caller sees on a response is connection.peer_id(), attached AFTER decoding, and decoding yields empty extensions, so nothing '
               'carried in the message can supply or influence it; the wire headers carry no identity field.',
         unverified=['rustls, webpki, ring, x509-parser, pkcs8 (the actual cryptography and certificate parsing): uninterpreted predicates',
-                    'CertVerifier::verify_client_cert / verify_server_cert (iterator and closure pipelines over &str; self-signed validation through webpki)',
+                    'CertVerifier::verify_client_cert / verify_server_cert (iterator and closure pipelines over &str): not proved; checked by BOUNDED enumeration on an executable model of webpki (unit enum_certs) and by the execution check cert_corpus',
                     'what rustls / quinn do with the configuration they are handed (the builders are recorders: unit tls_config proves which verifier, certificate, key, versions and server name go in)',
                     'the two statics SUPPORTED_SIG_ALGS / SUPPORTED_ALGORITHMS hold &dyn objects: compared textually with the pinned definition (mismatch = undecided)'],
         assumptions=['rustls reports the peer chain end-entity first and non-empty under mandatory client auth'],
+    ),
+    'C14': dict(
+        units=['tls_config', 'enum_certs'],
+        canaries=['tls_config', 'certs'],
+        extra=[validate.network_names, validate.cert_corpus],
+        counterexample=cex.cex_names,
+        scope='GLUE ONLY. Proved (Verus, unit tls_config): a dial always asks for the node\'s PRIMARY network name; the node presents a certificate self-signed for that name; the dialer\'s '
+              'verifier is anemo\'s CertVerifier configured for exactly the primary name, the listener\'s for the primary (and alternate) name and no other; the TLS configurations install exactly '
+              'those verifiers. BOUNDED (unit enum_certs, the real text of CertVerifier::verify_server_cert / verify_client_cert / prepare_for_self_signed / pki_error and the real static '
+              'SUPPORTED_SIG_ALGS on an executable model of webpki, every certificate of the model): a certificate is accepted iff it is a well-formed, currently valid, SELF-signed Ed25519 '
+              'certificate permitting the usage, and - dialer side - the requested name is one the verifier is configured for and the certificate is valid for it, - listener side - the '
+              'certificate is valid for one of the names the listener accepts.',
+        unverified=['SNI resolution in rustls (which certificate a listener presents for a requested name, refusal of unknown names) and subject-name matching in webpki: exercised end to end by the execution check network_names (all ordered pairs of five networks) and cert_corpus, never proved',
+                    'the listener\'s certificate resolver is filled in a loop over (name, certificate) pairs: that its names are exactly the configured ones is not proved (only that every entry carries the node\'s key)',
+                    'the two verifier bodies are checked by bounded enumeration over a model of webpki, not proved',
+                    'a peer that claims one name in the TLS hello while presenting a certificate for another: decided inside rustls / webpki; covered only through the verifier twins and cert_corpus'],
+        assumptions=['the executable webpki model of unit enum_certs (stated in its docstring)'],
     ),
     'C02': dict(
         units=['wire', 'kani_wire'],
@@ -192,7 +209,6 @@ PENDING = 'within reach of the technique (DESIGN.md section 5) but its unit is n
 NOT_APPLICABLE = {
      'C08': 'shutdown: task joins, channel closure, socket release and runtime teardown at every point in time; no function-level contract expresses it and neither verifier models tokio tasks or Drop ordering (DESIGN.md section 6)',
     'C12': 'cancellation: when a remote handler is dropped relative to a caller\'s cancellation and QUIC stream credit return are scheduling + quinn flow control; nothing in reach decides a sentence of it (section 6)',
-    'C14': 'network names: decided inside rustls SNI resolver / webpki name matching reached through iterator+closure pipelines Verus rejects and Kani cannot execute (X.509 parsing, anyhow) (section 6)',
     'C16': 'routing: matching is the third-party matchit trie; router construction uses dyn Any downcasts, boxed trait objects, BTreeMap: outside both verifiers (section 6)',
     'C17': 'generated clients: quantifies over programs built with quote!/format! token streams; no verifier here reasons about proc-macro output (section 6)',
     'C18': 'in-flight limit: the bound is the tokio semaphore under concurrency and implicit-Drop timing of permits; Kani has no threads, Verus cannot observe drop points (section 6)',
